@@ -32,6 +32,7 @@ use tensor_store::{ScalarValue, TensorStore, TensorValue};
 use tensor_vault::{AttenuationPolicy, Permission, Vault, VaultConfig, VaultError};
 
 const TTL_SHORT_MS: u64 = 150;
+const MASTER: &[u8] = b"nv-c14-master-key";
 const SLEEP_MS: u64 = 190;
 const MAX_SLEEPS: u32 = 2;
 const ROOT: &str = "node:root";
@@ -861,6 +862,26 @@ impl<'a> Run<'a> {
                 }
                 Ok(())
             },
+            Op::SealedSleep => {
+                if self.sleeps >= MAX_SLEEPS || !self.m.has_unexpired_short() {
+                    ctx.label("skip:sleep");
+                    return Ok(());
+                }
+                self.sleeps += 1;
+                if let Err(e) = self.vault.seal() {
+                    return ctx.fail("harness:seal-failed", err_text(&e));
+                }
+                std::thread::sleep(Duration::from_millis(SLEEP_MS));
+                self.expire_now();
+                // a call that is not guarded by the seal and runs the expiry sweep
+                let who = self.pname(1).to_string();
+                let _ = self.vault.get_permission(&who, "no-such-secret");
+                if let Err(e) = self.vault.unseal(MASTER) {
+                    return ctx.fail("harness:unseal-failed", err_text(&e));
+                }
+                ctx.label("ttl:sleep while sealed");
+                Ok(())
+            },
         }
     }
 
@@ -1337,7 +1358,7 @@ fn run_case(case: &Case, ctx: &mut CaseCtx) -> Result<(), Fail> {
     cfg.attenuation = attenuation;
     cfg.max_delegation_depth = Some(64);
     cfg.max_value_size = max_value;
-    let vault = match Vault::new(b"nv-c14-master-key", Arc::clone(&graph), store.clone(), cfg) {
+    let vault = match Vault::new(MASTER, Arc::clone(&graph), store.clone(), cfg) {
         Ok(v) => v,
         Err(e) => return ctx.fail("harness:vault-new-failed", err_text(&e)),
     };
